@@ -129,6 +129,10 @@ Inductive flavour := Simple | Declared.     (* wrappers.decorator | wrappers.wra
 
 Inductive obj :=
 | Plain (id : N) (s : sigT) (b : behaviour)               (* a plain def *)
+| Fwd (id : N) (declared : bool) (s : sigT) (n : nat) (x : obj)
+      (* def m(<s>): return x(<first n named parameters>, *args, **kwargs); its effective
+         signature is known to sigtools only: by discovery, or (declared) through
+         specifiers.forwards_to_function(x, n) without emulate *)
 | Deco (fl : flavour) (fa : fwd) (w : wrapperT) (x : obj) (* _SimpleWrapped(w, x) | _Wrapped(deco, w, x) *)
 | Comb (fs : list obj)                                    (* Combination: .functions *)
 | Static (x : obj)                                        (* staticmethod(x) *)
@@ -163,6 +167,11 @@ Definition combination (fs : list behaviour) (arg : term) (rest : list term)
 Fixpoint call (o : obj) : behaviour :=
   match o with
   | Plain _ _ b => b
+  | Fwd _ _ s _ x =>
+      fun c => match bind_named (params s) (vpos c) (vkws c) [] with
+               | Some (vals, rest, restk) => call x (mkV (vals ++ rest) restk)
+               | None => Raise type_error
+               end
   | Deco _ _ w x => self_guard (w_run w (call x))    (* self.func( *a, **k ) = partial(wrapper, wrapped)( *a, **k ) = wrapper(wrapped, *a, **k) *)
   | Comb fs =>                            (* __call__(self, arg, *args, **kwargs) *)
       self_guard
@@ -179,7 +188,7 @@ Fixpoint call (o : obj) : behaviour :=
    on the class *)
 Fixpoint get (o : obj) (inst : option term) (cls : term) : obj :=
   match o with
-  | Plain _ _ _ => match inst with Some v => Bound o v | None => o end
+  | Plain _ _ _ | Fwd _ _ _ _ _ => match inst with Some v => Bound o v | None => o end
   | Deco fl fa w x => Deco fl fa w (get x inst cls)   (* type(self)(..., self.wrapper, safe_get(self.__wrapped__, instance, owner)) *)
   | Comb _ => o                                       (* Combination defines no __get__ *)
   | Static x => x
@@ -283,6 +292,14 @@ Fixpoint all_ok (l : list (res sigT)) : res (list sigT) :=
 Fixpoint sig_of (o : obj) : res sigT :=
   match o with
   | Plain _ s _ => Ok s
+  | Fwd _ true s n x =>        (* the forger: forwards(m, x, n); errors escape *)
+      do xs <- sig_of x ;; forwards s xs n [] false false true true false
+  | Fwd _ false s n x =>       (* discovery; gives up to the literal signature *)
+      match (do xs <- sig_of x ;;
+             do r <- forwards s xs n [] false false true true false ;; merge [r]) with
+      | Ok r => Ok r
+      | Err e => if is_crash (Err e) then Err crash else Ok s
+      end
   | Deco Simple fa w x => simple_sig w fa (sig_of x)
   | Deco Declared fa w x => declared_sig w fa (sig_of x)
   | Comb fs => do ss <- all_ok (map sig_of fs) ;; merge (comb_self_sig :: ss)   (* Combination.get_signature *)
